@@ -19,7 +19,7 @@ func init() {
 		Explanation: "Decides where and how often actions run and the shape of the counter updates, not the arithmetic results: R1 Action.Evaluate is invoked from a frozen set of call sites, each under no condition other than its documented type filter (non-disruptive actions per matched value; flow and disruptive actions once, by the chain starter only, after the chain walk); " +
 			"R2 on every path through the 'operator matched' branch of doEvaluate the per-match hook (Rule.matchVariable) runs exactly once, never on the no-match path, and MATCHED_* are set before the actions of that match; HIGHEST_SEVERITY is written only by MatchRule (i.e. for rules that fired) and only when the rule's severity is lower than the current value; " +
 			"R2 also: MATCHED_VARS is emptied before every rule under no condition other than being non-empty, and MATCHED_VARS/MATCHED_VARS_NAMES are only extended (Add) or reset, never overwritten per name; R3 the RULE collection and the capture flag are set before any operator or action of the rule runs, and TX.0-9 are written by CaptureField only under the rule's capture flag; R4 the logging actions write exactly the documented (Log, Audit) flags; " +
-			"R6 code running during a transaction reads the transaction's copy of every setting that WAF and Transaction both hold (AuditLogParts, body access and limits, engine modes), never the configured WAF value, except as the upper bound of a ctl limit; R5 setvar's '+'/'-' branches add / subtract the number parsed from the text after the sign to / from the number parsed from the current value, and macros are expanded inside Evaluate (at match time), not at Init. R3 also: the collection write of CaptureField is reachable for every index 0..9.",
+			"R6 code running during a transaction reads the transaction's copy of every setting that WAF and Transaction both hold (AuditLogParts, body access and limits, engine modes), never the configured WAF value, except as the upper bound of a ctl limit; R5 setvar's '+'/'-' branches add / subtract the number parsed from the text after the sign to / from the number parsed from the current value, and macros are expanded inside Evaluate (at match time), not at Init. R3 also: the collection write of CaptureField is reachable for every index 0..9. R5 also: every strconv parse in the setvar arithmetic leaves the function on its error branch (no substitute value flows into the sum).",
 		NotDecided: []string{
 			"the arithmetic itself (strconv, integer overflow) and macro expansion results",
 			"totals at the end of a phase (follow from once-per-match plus the arithmetic)",
